@@ -68,3 +68,23 @@ check("C29", "explore",
       "ProcessSyncGroup.start does).",
       "start()/subprocess_run are not executed (need SCHED_RR and a NIC): "
       "the child runs harness code around the real descriptors.")
+
+check("C12", "vloop+explore",
+      "stateless deviation-bounded DFS (CHESS-style) over the real send/receive "
+      "machinery on a virtual asyncio loop",
+      "The real EtherCat.sendloop / process_packet / roundtrip_packet / "
+      "roundtrip / datagram_received run on a virtual event loop against a "
+      "fake transport. For each workload (1-3 requests with payload sizes "
+      "{2,700,1400,1472,1473}, submitted up front or later, cancellation "
+      "allowed or not; 17 tiny requests for the count limit) every execution "
+      "with at most 2 (quick) / 3 (thorough, <= 2 requests) deviations from "
+      "the default environment is enumerated: early/late submission, "
+      "cancellation at any iteration boundary, frame loss, duplication, "
+      "overtaking, working counter 0 per datagram, colliding frame index. "
+      "Frames on the wire are parsed independently; every request's outcome "
+      "must be the one its own datagram determines; a busy loop is detected "
+      "deterministically (more than 64 tasks/frames within one iteration).",
+      "Schedules are those asyncio can produce (FIFO callbacks, external "
+      "events between iterations). A fresh frame index is never a previously "
+      "used one (10^9 range); index collisions with in-flight frames are "
+      "explored.")
